@@ -9,8 +9,10 @@ package main
 
 import (
 	"go/ast"
+	"go/parser"
 	"go/token"
 	"path/filepath"
+	"strconv"
 )
 
 var builtins = map[string]bool{"len": true, "cap": true, "append": true, "make": true, "new": true, "panic": true, "string": true,
@@ -186,5 +188,836 @@ func (t *translator) helperCallees(fd *ast.FuncDecl, fs fnSpec) []fnSpec {
 		}
 		return true
 	})
+	return out
+}
+
+// ---------------------------------------------------------------------------------------------------------
+// Inlining of helpers at the level of the Go syntax tree, BEFORE translation: a refactoring that moves a piece of
+// a translated function into an unexported helper of the same package gives the same Gallina term again (up to
+// the names of locals), so the bridge lemmas - which name the loops of the ROOT - keep their subject.
+//   return h(a..)            -> { p := a ..; <body of h> }                       (any body: its returns are ours)
+//   x.. := h(a..) / h(a..)   -> var r T..; p := a..; <body, `return e` -> `r = e`>; x.. := r..
+//                               (only bodies without loops / defers whose returns are all in tail position)
+//   if c(h(a..)) / return e(h(a..)) / x := e(h(a..)): the call is hoisted into a fresh local first, when it is the
+//   only call of the expression and is not the right operand of && / || (evaluation order is kept).
+// Locals and parameters of the helper get fresh names (x''N); a parameter bound to a variable is that variable.
+
+var inlineCounter int
+
+type inliner struct {
+	t      *translator
+	fs     fnSpec
+	decls  map[string]*ast.FuncDecl // helpers by name (functions without receiver)
+	files  map[string]string        // helper -> file (absolute)
+	roots  map[string]bool
+	budget int
+}
+
+func (t *translator) inlineHelpers(fd *ast.FuncDecl, fs fnSpec) {
+	if fs.from != "" {
+		return
+	}
+	in := &inliner{t: t, fs: fs, decls: map[string]*ast.FuncDecl{}, files: map[string]string{}, roots: map[string]bool{}, budget: 40}
+	for _, pf := range t.pkgFiles() {
+		for _, d := range pf.Decls {
+			if x, isF := d.(*ast.FuncDecl); isF && x.Body != nil && x.Recv == nil {
+				in.decls[x.Name.Name] = x
+				in.files[x.Name.Name] = fset.Position(pf.Pos()).Filename
+			}
+		}
+	}
+	for _, r := range t.a.funcs {
+		in.roots[r.name] = true
+	}
+	in.roots[fd.Name.Name] = true
+	var lits []*ast.FuncLit
+	ast.Inspect(fd.Body, func(n ast.Node) bool {
+		if l, ok := n.(*ast.FuncLit); ok {
+			lits = append(lits, l)
+		}
+		return true
+	})
+	nres := func(ft *ast.FuncType) int {
+		if ft.Results == nil {
+			return 0
+		}
+		k := 0
+		for _, f := range ft.Results.List {
+			if len(f.Names) == 0 {
+				k++
+			} else {
+				k += len(f.Names)
+			}
+		}
+		return k
+	}
+	fd.Body.List = normaliseWhile(in.list(fd.Body.List, nres(fd.Type)))
+	for _, l := range lits {
+		l.Body.List = normaliseWhile(in.list(l.Body.List, nres(l.Type)))
+	}
+}
+
+// is the call one of an inlinable helper? returns its declaration (a fresh copy) or nil
+func (in *inliner) helper(c *ast.CallExpr) *ast.FuncDecl {
+	fun := c.Fun
+	var explicit []ast.Expr
+	switch ix := fun.(type) {
+	case *ast.IndexExpr:
+		fun, explicit = ix.X, []ast.Expr{ix.Index}
+	case *ast.IndexListExpr:
+		fun, explicit = ix.X, ix.Indices
+	}
+	id, ok := fun.(*ast.Ident)
+	if !ok || in.roots[id.Name] || builtins[id.Name] || in.t.sigs[id.Name] != nil || in.t.a.fatals[id.Name] {
+		return nil
+	}
+	if _, isPrim := in.t.a.prims[id.Name]; isPrim {
+		return nil
+	}
+	if _, isPrim := in.t.a.prims[id.Name+"[...]"]; isPrim {
+		return nil
+	}
+	d := in.decls[id.Name]
+	if d == nil || c.Ellipsis != token.NoPos || in.budget <= 0 {
+		return nil
+	}
+	// a generic helper: only when its type parameters are named like the arguments it is instantiated with
+	if d.Type.TypeParams != nil {
+		i := 0
+		for _, f := range d.Type.TypeParams.List {
+			for _, n := range f.Names {
+				if i < len(explicit) {
+					if at, isId := explicit[i].(*ast.Ident); !isId || at.Name != n.Name {
+						return nil
+					}
+				} else if _, known := in.fs.inst[n.Name]; !known {
+					return nil
+				}
+				i++
+			}
+		}
+	}
+	if d.Type.Params != nil {
+		k := 0
+		for _, f := range d.Type.Params.List {
+			if len(f.Names) == 0 {
+				return nil
+			}
+			if _, variadic := f.Type.(*ast.Ellipsis); variadic {
+				return nil
+			}
+			k += len(f.Names)
+		}
+		if k != len(c.Args) {
+			return nil
+		}
+	} else if len(c.Args) != 0 {
+		return nil
+	}
+	if d.Type.Results != nil {
+		for _, f := range d.Type.Results.List {
+			if len(f.Names) != 0 {
+				return nil // named results
+			}
+		}
+	}
+	bad := false
+	ast.Inspect(d.Body, func(n ast.Node) bool {
+		switch x := n.(type) {
+		case *ast.DeferStmt, *ast.GoStmt, *ast.LabeledStmt, *ast.FuncLit:
+			bad = true
+		case *ast.CallExpr:
+			if cid, isId := x.Fun.(*ast.Ident); isId && cid.Name == id.Name {
+				bad = true // recursive
+			}
+		}
+		return true
+	})
+	if bad {
+		return nil
+	}
+	// a fresh copy: parse the file again
+	f, err := parser.ParseFile(fset, in.files[id.Name], nil, parser.SkipObjectResolution)
+	if err != nil {
+		return nil
+	}
+	for _, dd := range f.Decls {
+		if x, isF := dd.(*ast.FuncDecl); isF && x.Recv == nil && x.Name.Name == id.Name {
+			return x
+		}
+	}
+	return nil
+}
+
+func simpleArg(e ast.Expr) bool {
+	switch x := e.(type) {
+	case *ast.Ident:
+		return true
+	case *ast.BasicLit:
+		return true
+	case *ast.SelectorExpr:
+		return simpleArg(x.X)
+	}
+	return false
+}
+
+// the body of h instantiated for the call: fresh names, parameters bound; returns (prefix binding statements, body)
+func (in *inliner) instantiate(h *ast.FuncDecl, c *ast.CallExpr) ([]ast.Stmt, []ast.Stmt) {
+	in.budget--
+	assignedIn := map[string]bool{}
+	ast.Inspect(h.Body, func(n ast.Node) bool {
+		switch x := n.(type) {
+		case *ast.AssignStmt:
+			for _, l := range x.Lhs {
+				if id, ok := l.(*ast.Ident); ok && x.Tok != token.DEFINE {
+					assignedIn[id.Name] = true
+				}
+				if ix, ok := l.(*ast.IndexExpr); ok {
+					if id, isId := ix.X.(*ast.Ident); isId {
+						assignedIn[id.Name] = true
+					}
+				}
+			}
+		case *ast.IncDecStmt:
+			if id, ok := x.X.(*ast.Ident); ok {
+				assignedIn[id.Name] = true
+			}
+		case *ast.UnaryExpr:
+			if id, ok := x.X.(*ast.Ident); ok && x.Op == token.AND {
+				assignedIn[id.Name] = true
+			}
+		}
+		return true
+	})
+	rename := map[string]ast.Expr{}
+	fresh := func(n string) string {
+		inlineCounter++
+		return n + "''h" + strconv.Itoa(inlineCounter)
+	}
+	var binds []ast.Stmt
+	i := 0
+	if h.Type.Params != nil {
+		for _, f := range h.Type.Params.List {
+			for _, n := range f.Names {
+				a := c.Args[i]
+				i++
+				if n.Name == "_" {
+					continue
+				}
+				if simpleArg(a) && !assignedIn[n.Name] {
+					rename[n.Name] = a
+					continue
+				}
+				nn := fresh(n.Name)
+				rename[n.Name] = ast.NewIdent(nn)
+				// var p T = a  (the declared type is kept: an untyped constant or a nil argument needs it)
+				binds = append(binds, &ast.DeclStmt{Decl: &ast.GenDecl{Tok: token.VAR, Specs: []ast.Spec{
+					&ast.ValueSpec{Names: []*ast.Ident{ast.NewIdent(nn)}, Type: f.Type, Values: []ast.Expr{a}}}}})
+			}
+		}
+	}
+	// locals
+	declare := func(id *ast.Ident) {
+		if id.Name != "_" {
+			if _, done := rename[id.Name]; !done {
+				rename[id.Name] = ast.NewIdent(fresh(id.Name))
+			}
+		}
+	}
+	ast.Inspect(h.Body, func(n ast.Node) bool {
+		switch x := n.(type) {
+		case *ast.AssignStmt:
+			if x.Tok == token.DEFINE {
+				for _, l := range x.Lhs {
+					if id, ok := l.(*ast.Ident); ok {
+						declare(id)
+					}
+				}
+			}
+		case *ast.ValueSpec:
+			for _, id := range x.Names {
+				declare(id)
+			}
+		case *ast.RangeStmt:
+			if x.Tok == token.DEFINE {
+				for _, e := range []ast.Expr{x.Key, x.Value} {
+					if id, ok := e.(*ast.Ident); ok {
+						declare(id)
+					}
+				}
+			}
+		}
+		return true
+	})
+	body := substStmts(h.Body.List, rename)
+	return binds, body
+}
+
+// ---- substitution of identifiers (not of field names) in a syntax tree
+func substStmts(l []ast.Stmt, m map[string]ast.Expr) []ast.Stmt {
+	out := make([]ast.Stmt, len(l))
+	for i, s := range l {
+		out[i] = substStmt(s, m)
+	}
+	return out
+}
+
+func substIdent(id *ast.Ident, m map[string]ast.Expr) *ast.Ident {
+	if id == nil {
+		return nil
+	}
+	if r, ok := m[id.Name]; ok {
+		if rid, isId := r.(*ast.Ident); isId {
+			return &ast.Ident{NamePos: id.NamePos, Name: rid.Name}
+		}
+	}
+	return id
+}
+
+func substExpr(e ast.Expr, m map[string]ast.Expr) ast.Expr {
+	switch x := e.(type) {
+	case nil:
+		return nil
+	case *ast.Ident:
+		if r, ok := m[x.Name]; ok {
+			return r
+		}
+		return x
+	case *ast.BasicLit:
+		return x
+	case *ast.ParenExpr:
+		return &ast.ParenExpr{Lparen: x.Lparen, X: substExpr(x.X, m), Rparen: x.Rparen}
+	case *ast.SelectorExpr:
+		return &ast.SelectorExpr{X: substExpr(x.X, m), Sel: x.Sel}
+	case *ast.StarExpr:
+		return &ast.StarExpr{Star: x.Star, X: substExpr(x.X, m)}
+	case *ast.UnaryExpr:
+		return &ast.UnaryExpr{OpPos: x.OpPos, Op: x.Op, X: substExpr(x.X, m)}
+	case *ast.BinaryExpr:
+		return &ast.BinaryExpr{X: substExpr(x.X, m), OpPos: x.OpPos, Op: x.Op, Y: substExpr(x.Y, m)}
+	case *ast.CallExpr:
+		args := make([]ast.Expr, len(x.Args))
+		for i, a := range x.Args {
+			args[i] = substExpr(a, m)
+		}
+		fun := x.Fun
+		// the called function: a variable of function type may be renamed, a declared function is not in the map
+		fun = substExpr(fun, m)
+		return &ast.CallExpr{Fun: fun, Lparen: x.Lparen, Args: args, Ellipsis: x.Ellipsis, Rparen: x.Rparen}
+	case *ast.IndexExpr:
+		return &ast.IndexExpr{X: substExpr(x.X, m), Lbrack: x.Lbrack, Index: substExpr(x.Index, m), Rbrack: x.Rbrack}
+	case *ast.IndexListExpr:
+		return x
+	case *ast.SliceExpr:
+		return &ast.SliceExpr{X: substExpr(x.X, m), Lbrack: x.Lbrack, Low: substExpr(x.Low, m), High: substExpr(x.High, m), Max: substExpr(x.Max, m), Slice3: x.Slice3, Rbrack: x.Rbrack}
+	case *ast.TypeAssertExpr:
+		return &ast.TypeAssertExpr{X: substExpr(x.X, m), Lparen: x.Lparen, Type: x.Type, Rparen: x.Rparen}
+	case *ast.CompositeLit:
+		elts := make([]ast.Expr, len(x.Elts))
+		for i, el := range x.Elts {
+			if kv, isKV := el.(*ast.KeyValueExpr); isKV {
+				elts[i] = &ast.KeyValueExpr{Key: kv.Key, Colon: kv.Colon, Value: substExpr(kv.Value, m)}
+			} else {
+				elts[i] = substExpr(el, m)
+			}
+		}
+		return &ast.CompositeLit{Type: x.Type, Lbrace: x.Lbrace, Elts: elts, Rbrace: x.Rbrace}
+	case *ast.KeyValueExpr:
+		return &ast.KeyValueExpr{Key: x.Key, Colon: x.Colon, Value: substExpr(x.Value, m)}
+	case *ast.ArrayType, *ast.MapType, *ast.FuncType, *ast.InterfaceType, *ast.StructType, *ast.ChanType, *ast.Ellipsis:
+		return x
+	}
+	unsup(e, "expression %T in a helper that is inlined", e)
+	return nil
+}
+
+func substStmt(s ast.Stmt, m map[string]ast.Expr) ast.Stmt {
+	exprs := func(l []ast.Expr) []ast.Expr {
+		out := make([]ast.Expr, len(l))
+		for i, e := range l {
+			out[i] = substExpr(e, m)
+		}
+		return out
+	}
+	block := func(b *ast.BlockStmt) *ast.BlockStmt {
+		if b == nil {
+			return nil
+		}
+		return &ast.BlockStmt{Lbrace: b.Lbrace, List: substStmts(b.List, m), Rbrace: b.Rbrace}
+	}
+	switch x := s.(type) {
+	case nil:
+		return nil
+	case *ast.EmptyStmt:
+		return x
+	case *ast.ExprStmt:
+		return &ast.ExprStmt{X: substExpr(x.X, m)}
+	case *ast.AssignStmt:
+		return &ast.AssignStmt{Lhs: exprs(x.Lhs), TokPos: x.TokPos, Tok: x.Tok, Rhs: exprs(x.Rhs)}
+	case *ast.IncDecStmt:
+		return &ast.IncDecStmt{X: substExpr(x.X, m), TokPos: x.TokPos, Tok: x.Tok}
+	case *ast.ReturnStmt:
+		return &ast.ReturnStmt{Return: x.Return, Results: exprs(x.Results)}
+	case *ast.BranchStmt:
+		return x
+	case *ast.BlockStmt:
+		return block(x)
+	case *ast.IfStmt:
+		return &ast.IfStmt{If: x.If, Init: substStmt(x.Init, m), Cond: substExpr(x.Cond, m), Body: block(x.Body), Else: substStmt(x.Else, m)}
+	case *ast.ForStmt:
+		return &ast.ForStmt{For: x.For, Init: substStmt(x.Init, m), Cond: substExpr(x.Cond, m), Post: substStmt(x.Post, m), Body: block(x.Body)}
+	case *ast.RangeStmt:
+		return &ast.RangeStmt{For: x.For, Key: substExpr(x.Key, m), Value: substExpr(x.Value, m), TokPos: x.TokPos, Tok: x.Tok, X: substExpr(x.X, m), Body: block(x.Body)}
+	case *ast.SwitchStmt:
+		return &ast.SwitchStmt{Switch: x.Switch, Init: substStmt(x.Init, m), Tag: substExpr(x.Tag, m), Body: block(x.Body)}
+	case *ast.CaseClause:
+		return &ast.CaseClause{Case: x.Case, List: exprs(x.List), Colon: x.Colon, Body: substStmts(x.Body, m)}
+	case *ast.DeclStmt:
+		gd, ok := x.Decl.(*ast.GenDecl)
+		if !ok || gd.Tok != token.VAR {
+			unsup(s, "declaration in a helper that is inlined")
+		}
+		var specs []ast.Spec
+		for _, sp := range gd.Specs {
+			vs := sp.(*ast.ValueSpec)
+			names := make([]*ast.Ident, len(vs.Names))
+			for i, n := range vs.Names {
+				names[i] = substIdent(n, m)
+			}
+			specs = append(specs, &ast.ValueSpec{Names: names, Type: vs.Type, Values: exprs(vs.Values)})
+		}
+		return &ast.DeclStmt{Decl: &ast.GenDecl{TokPos: gd.TokPos, Tok: gd.Tok, Lparen: gd.Lparen, Specs: specs, Rparen: gd.Rparen}}
+	}
+	unsup(s, "statement %T in a helper that is inlined", s)
+	return nil
+}
+
+// ---- returns in tail position -> assignments to the result variables
+func hasReturn(n ast.Node) bool {
+	found := false
+	ast.Inspect(n, func(x ast.Node) bool {
+		if _, ok := x.(*ast.ReturnStmt); ok {
+			found = true
+		}
+		return true
+	})
+	return found
+}
+
+func hasLoop(l []ast.Stmt) bool {
+	found := false
+	for _, s := range l {
+		ast.Inspect(s, func(x ast.Node) bool {
+			switch x.(type) {
+			case *ast.ForStmt, *ast.RangeStmt:
+				found = true
+			}
+			return true
+		})
+	}
+	return found
+}
+
+func retToAssign(l []ast.Stmt, res []*ast.Ident) ([]ast.Stmt, bool) {
+	var out []ast.Stmt
+	for i, s := range l {
+		switch x := s.(type) {
+		case *ast.ReturnStmt:
+			if len(res) > 0 {
+				lhs := make([]ast.Expr, len(res))
+				for k, r := range res {
+					lhs[k] = ast.NewIdent(r.Name)
+				}
+				if len(x.Results) != len(res) && len(x.Results) != 1 {
+					return nil, false
+				}
+				out = append(out, &ast.AssignStmt{Lhs: lhs, Tok: token.ASSIGN, Rhs: x.Results, TokPos: x.Return})
+			}
+			return out, true // what follows a return is dead
+		case *ast.IfStmt:
+			if !hasReturn(x) {
+				out = append(out, s)
+				continue
+			}
+			rest := l[i+1:]
+			var els []ast.Stmt
+			switch e := x.Else.(type) {
+			case nil:
+			case *ast.BlockStmt:
+				els = e.List
+			case *ast.IfStmt:
+				els = []ast.Stmt{e}
+			}
+			bodyT, elseT := terminates(x.Body.List), terminates(els)
+			if !bodyT && !elseT {
+				return nil, false
+			}
+			b := x.Body.List
+			if !bodyT {
+				b = append(append([]ast.Stmt{}, b...), rest...)
+			}
+			if !elseT {
+				els = append(append([]ast.Stmt{}, els...), rest...)
+			}
+			b2, ok1 := retToAssign(b, res)
+			e2, ok2 := retToAssign(els, res)
+			if !ok1 || !ok2 {
+				return nil, false
+			}
+			n := &ast.IfStmt{If: x.If, Init: x.Init, Cond: x.Cond, Body: &ast.BlockStmt{List: b2}}
+			if len(e2) > 0 {
+				n.Else = &ast.BlockStmt{List: e2}
+			}
+			out = append(out, n)
+			return out, true
+		default:
+			if hasReturn(s) {
+				return nil, false
+			}
+			out = append(out, s)
+		}
+	}
+	return out, len(res) == 0 || false
+}
+
+// ---- the rewriting of a statement list
+func (in *inliner) list(l []ast.Stmt, nres int) []ast.Stmt {
+	var out []ast.Stmt
+	for _, s := range l {
+		out = append(out, in.stmt(s, nres)...)
+	}
+	return out
+}
+
+func (in *inliner) block(b *ast.BlockStmt, nres int) {
+	if b != nil {
+		b.List = in.list(b.List, nres)
+	}
+}
+
+func resultCount(h *ast.FuncDecl) int {
+	if h.Type.Results == nil {
+		return 0
+	}
+	return len(h.Type.Results.List)
+}
+
+// the single inlinable call in e that is evaluated unconditionally and is the only call of e
+func (in *inliner) hoistable(e ast.Expr) *ast.CallExpr {
+	var calls []*ast.CallExpr
+	ast.Inspect(e, func(n ast.Node) bool {
+		if c, ok := n.(*ast.CallExpr); ok {
+			if id, isId := c.Fun.(*ast.Ident); isId && (builtins[id.Name] && id.Name != "append") {
+				return true // len(x), a conversion
+			}
+			calls = append(calls, c)
+		}
+		return true
+	})
+	if len(calls) != 1 {
+		return nil
+	}
+	c := calls[0]
+	h := in.helper(c)
+	if h == nil || resultCount(h) != 1 {
+		return nil
+	}
+	// not under the right operand of && / ||
+	conditional := false
+	var walk func(x ast.Expr, cond bool)
+	walk = func(x ast.Expr, cond bool) {
+		switch y := x.(type) {
+		case *ast.BinaryExpr:
+			if y.Op == token.LAND || y.Op == token.LOR {
+				walk(y.X, cond)
+				walk(y.Y, true)
+				return
+			}
+			walk(y.X, cond)
+			walk(y.Y, cond)
+		case *ast.ParenExpr:
+			walk(y.X, cond)
+		case *ast.UnaryExpr:
+			walk(y.X, cond)
+		case *ast.CallExpr:
+			if y == c && cond {
+				conditional = true
+			}
+			for _, a := range y.Args {
+				walk(a, cond)
+			}
+		case *ast.SelectorExpr:
+			walk(y.X, cond)
+		case *ast.IndexExpr:
+			walk(y.X, cond)
+			walk(y.Index, cond)
+		}
+	}
+	walk(e, false)
+	if conditional {
+		return nil
+	}
+	return c
+}
+
+func replaceCall(e ast.Expr, c *ast.CallExpr, by ast.Expr) ast.Expr {
+	if e == ast.Expr(c) {
+		return by
+	}
+	switch x := e.(type) {
+	case *ast.ParenExpr:
+		x.X = replaceCall(x.X, c, by)
+	case *ast.UnaryExpr:
+		x.X = replaceCall(x.X, c, by)
+	case *ast.BinaryExpr:
+		x.X = replaceCall(x.X, c, by)
+		x.Y = replaceCall(x.Y, c, by)
+	case *ast.CallExpr:
+		for i := range x.Args {
+			x.Args[i] = replaceCall(x.Args[i], c, by)
+		}
+	case *ast.SelectorExpr:
+		x.X = replaceCall(x.X, c, by)
+	case *ast.IndexExpr:
+		x.X = replaceCall(x.X, c, by)
+		x.Index = replaceCall(x.Index, c, by)
+	case *ast.StarExpr:
+		x.X = replaceCall(x.X, c, by)
+	}
+	return e
+}
+
+// v.. := h(a..) where the call is the whole right-hand side (v fresh result variables are declared first)
+func (in *inliner) callStmt(h *ast.FuncDecl, c *ast.CallExpr, nres int) ([]ast.Stmt, []*ast.Ident, bool) {
+	if hasLoop(h.Body.List) {
+		return nil, nil, false
+	}
+	binds, body := in.instantiate(h, c)
+	var res []*ast.Ident
+	var decls []ast.Stmt
+	if h.Type.Results != nil {
+		for _, f := range h.Type.Results.List {
+			inlineCounter++
+			r := ast.NewIdent("r''h" + strconv.Itoa(inlineCounter))
+			res = append(res, r)
+			decls = append(decls, &ast.DeclStmt{Decl: &ast.GenDecl{Tok: token.VAR, Specs: []ast.Spec{
+				&ast.ValueSpec{Names: []*ast.Ident{ast.NewIdent(r.Name)}, Type: f.Type}}}})
+		}
+	}
+	b2, ok := retToAssign(body, res)
+	if !ok && len(res) > 0 {
+		return nil, nil, false
+	}
+	if !ok {
+		b2, ok = retToAssign(append(body, &ast.ReturnStmt{}), res)
+		if !ok {
+			return nil, nil, false
+		}
+	}
+	out := append(append(decls, binds...), b2...)
+	return in.list(out, nres), res, true
+}
+
+func (in *inliner) stmt(s ast.Stmt, nres int) []ast.Stmt {
+	switch x := s.(type) {
+	case *ast.ReturnStmt:
+		// return h(a..): the body of h in place
+		if len(x.Results) == 1 {
+			if c, isCall := x.Results[0].(*ast.CallExpr); isCall {
+				if h := in.helper(c); h != nil && resultCount(h) == nres {
+					binds, body := in.instantiate(h, c)
+					if !terminates(body) {
+						body = append(body, &ast.ReturnStmt{})
+					}
+					// spliced, not wrapped in a block: every name of the helper is fresh, and a loop of the helper stays a
+					// top-level loop of the function when the return was one of its top-level statements
+					return in.list(append(binds, body...), nres)
+				}
+			}
+		}
+		for i, r := range x.Results {
+			if c := in.hoistable(r); c != nil && ast.Expr(c) != r || (c != nil && len(x.Results) > 1) {
+				pre, tmp := in.hoist(c, nres)
+				if pre != nil {
+					x.Results[i] = replaceCall(r, c, tmp)
+					return append(pre, in.stmt(x, nres)...)
+				}
+			}
+		}
+		return []ast.Stmt{s}
+	case *ast.ExprStmt:
+		if c, isCall := x.X.(*ast.CallExpr); isCall {
+			if h := in.helper(c); h != nil {
+				if out, _, ok := in.callStmt(h, c, nres); ok {
+					return out
+				}
+			}
+		}
+		return []ast.Stmt{s}
+	case *ast.AssignStmt:
+		if len(x.Rhs) == 1 {
+			if c, isCall := x.Rhs[0].(*ast.CallExpr); isCall {
+				if h := in.helper(c); h != nil && resultCount(h) == len(x.Lhs) {
+					if out, res, ok := in.callStmt(h, c, nres); ok {
+						rhs := make([]ast.Expr, len(res))
+						for i, r := range res {
+							rhs[i] = ast.NewIdent(r.Name)
+						}
+						return append(out, &ast.AssignStmt{Lhs: x.Lhs, TokPos: x.TokPos, Tok: x.Tok, Rhs: rhs})
+					}
+				}
+				return []ast.Stmt{s}
+			}
+			if c := in.hoistable(x.Rhs[0]); c != nil {
+				if pre, tmp := in.hoist(c, nres); pre != nil {
+					x.Rhs[0] = replaceCall(x.Rhs[0], c, tmp)
+					return append(pre, s)
+				}
+			}
+		}
+		return []ast.Stmt{s}
+	case *ast.IfStmt:
+		if x.Init == nil {
+			if c := in.hoistable(x.Cond); c != nil {
+				if pre, tmp := in.hoist(c, nres); pre != nil {
+					x.Cond = replaceCall(x.Cond, c, tmp)
+					return append(pre, in.stmt(x, nres)...)
+				}
+			}
+		}
+		in.block(x.Body, nres)
+		switch e := x.Else.(type) {
+		case *ast.BlockStmt:
+			in.block(e, nres)
+		case *ast.IfStmt:
+			r := in.stmt(e, nres)
+			if len(r) == 1 {
+				x.Else = r[0]
+			} else {
+				x.Else = &ast.BlockStmt{List: r}
+			}
+		}
+		return []ast.Stmt{s}
+	case *ast.BlockStmt:
+		in.block(x, nres)
+		return []ast.Stmt{s}
+	case *ast.ForStmt:
+		in.block(x.Body, nres)
+		return []ast.Stmt{s}
+	case *ast.RangeStmt:
+		in.block(x.Body, nres)
+		return []ast.Stmt{s}
+	case *ast.SwitchStmt:
+		for _, cc := range x.Body.List {
+			if cl, ok := cc.(*ast.CaseClause); ok {
+				cl.Body = in.list(cl.Body, nres)
+			}
+		}
+		return []ast.Stmt{s}
+	}
+	return []ast.Stmt{s}
+}
+
+// tmp := h(a..) in front of the statement that uses it
+func (in *inliner) hoist(c *ast.CallExpr, nres int) ([]ast.Stmt, ast.Expr) {
+	h := in.helper(c)
+	if h == nil {
+		return nil, nil
+	}
+	out, res, ok := in.callStmt(h, c, nres)
+	if !ok || len(res) != 1 {
+		return nil, nil
+	}
+	return out, ast.NewIdent(res[0].Name)
+}
+
+// ---- (d) a condition-only loop with its counter declared right before it and not used after it IS the
+// three-clause loop:   i := e; for i < B { body; i++ }   ->   for i := e; i < B; i++ { body }
+// (body without continue, i assigned nowhere else): both spellings give the same Fixpoint, parameters in the same order.
+func normaliseWhile(l []ast.Stmt) []ast.Stmt {
+	mentions := func(stmts []ast.Stmt, name string) bool {
+		found := false
+		for _, s := range stmts {
+			ast.Inspect(s, func(n ast.Node) bool {
+				if id, ok := n.(*ast.Ident); ok && id.Name == name {
+					found = true
+				}
+				return true
+			})
+		}
+		return found
+	}
+	var out []ast.Stmt
+	for i := 0; i < len(l); i++ {
+		s := l[i]
+		if as, ok := s.(*ast.AssignStmt); ok && as.Tok == token.DEFINE && len(as.Lhs) == 1 && len(as.Rhs) == 1 && i+1 < len(l) {
+			if ci, isId := as.Lhs[0].(*ast.Ident); isId {
+				if f, isFor := l[i+1].(*ast.ForStmt); isFor && f.Init == nil && f.Post == nil && f.Cond != nil && len(f.Body.List) > 0 {
+					cmp, isCmp := f.Cond.(*ast.BinaryExpr)
+					inc, isInc := f.Body.List[len(f.Body.List)-1].(*ast.IncDecStmt)
+					okShape := isCmp && isInc && inc.Tok == token.INC
+					if okShape {
+						x, isX := cmp.X.(*ast.Ident)
+						y, isY := inc.X.(*ast.Ident)
+						okShape = isX && isY && x.Name == ci.Name && y.Name == ci.Name && (cmp.Op == token.LSS || cmp.Op == token.LEQ)
+					}
+					if okShape {
+						body := f.Body.List[:len(f.Body.List)-1]
+						bad := false
+						for _, b := range body {
+							ast.Inspect(b, func(n ast.Node) bool {
+								switch v := n.(type) {
+								case *ast.BranchStmt:
+									if v.Tok == token.CONTINUE {
+										bad = true
+									}
+								case *ast.AssignStmt:
+									for _, lh := range v.Lhs {
+										if id, isI := lh.(*ast.Ident); isI && id.Name == ci.Name {
+											bad = true
+										}
+									}
+								case *ast.IncDecStmt:
+									if id, isI := v.X.(*ast.Ident); isI && id.Name == ci.Name {
+										bad = true
+									}
+								case *ast.UnaryExpr:
+									if id, isI := v.X.(*ast.Ident); isI && id.Name == ci.Name && v.Op == token.AND {
+										bad = true
+									}
+								case *ast.FuncLit:
+									bad = true
+								}
+								return true
+							})
+						}
+						if !bad && !mentions(l[i+2:], ci.Name) && !mentions([]ast.Stmt{&ast.ExprStmt{X: cmp.Y}}, ci.Name) {
+							nf := &ast.ForStmt{For: f.For, Init: as, Cond: f.Cond, Post: inc, Body: &ast.BlockStmt{Lbrace: f.Body.Lbrace, List: body, Rbrace: f.Body.Rbrace}}
+							out = append(out, nf)
+							i++
+							continue
+						}
+					}
+				}
+			}
+		}
+		out = append(out, s)
+	}
+	// nested lists
+	for _, s := range out {
+		switch x := s.(type) {
+		case *ast.BlockStmt:
+			x.List = normaliseWhile(x.List)
+		case *ast.IfStmt:
+			x.Body.List = normaliseWhile(x.Body.List)
+			if e, ok := x.Else.(*ast.BlockStmt); ok {
+				e.List = normaliseWhile(e.List)
+			}
+		case *ast.ForStmt:
+			x.Body.List = normaliseWhile(x.Body.List)
+		case *ast.RangeStmt:
+			x.Body.List = normaliseWhile(x.Body.List)
+		}
+	}
 	return out
 }
